@@ -733,11 +733,28 @@ Lemma raise_bind_inv {A B} e (k : A -> W xstate B) st st' out b :
   w_bind (w_raise e) k st = (st', out, Ok b) -> False.
 Proof. unfold w_bind, w_raise. discriminate. Qed.
 
+(* ---- fix f38f280: the writer stops at the first component without a sub-element node; the event description lists
+   every component, so the two agree only for composites with at most as many components as the node has sub-ids ---- *)
+Definition comp_fits (gi : seginfo) (i : nat) (comp : composite) : bool :=
+  match child_for gi i with
+  | None => true
+  | Some c =>
+      not_used c || comp_empty comp ||
+      match ci_kind c with CEle => true | CComp => length comp <=? length (ci_subids c) end
+  end.
+
+(* every composite element that is WRITTEN (its node is found, it is used and not empty) has at most as many
+   components as its node has sub-element nodes *)
+Definition fits_node (gi : seginfo) (s : seg) : bool :=
+  forallb (fun ic : nat * composite => comp_fits gi (fst ic) (snd ic)) (combine (seq 0 (length (els s))) (els s)).
+
 Lemma write_subeles_ok c comp st st' out :
+  length comp <= length (ci_subids c) ->
   write_subeles c comp st = (st', out, Ok tt) ->
   st' = st /\ concat out = ser (length (xw_stack st)) (sub_events c comp).
 Proof.
-  unfold write_subeles, sub_events. generalize (combine (seq 0 (length comp)) comp) as jvs.
+  intros LE. unfold write_subeles, sub_events. rewrite (firstn_all2 comp LE).
+  generalize (combine (seq 0 (length comp)) comp) as jvs.
   intros jvs. revert st out. induction jvs as [|jv jvs IH]; intros st out H.
   - cbn in H. injection H as <- <-. split; reflexivity.
   - cbn [w_iter map] in H. unfold comp_child_by_idx in H at 1.
@@ -770,14 +787,16 @@ Lemma ret_inv {A} (a b : A) (st st' : xstate) out : w_ret a st = (st', out, Ok b
 Proof. unfold w_ret. intros [= <- <- <-]. auto. Qed.
 
 Lemma write_child_ok gi d s i st st' out : i < length (els s) ->
+  comp_fits gi i (nth i (els s) []) = true ->
   write_child gi d s i st = (st', out, Ok tt) ->
   st' = st /\ concat out = ser (length (xw_stack st)) (child_events gi d i (nth i (els s) [])).
 Proof.
-  intros L H. unfold write_child in H.
+  intros L FT H. unfold write_child in H.
   apply lift_inv in H as (child & CH & H). destruct child as [c|]; [|discriminate H].
+  unfold comp_fits in FT. rewrite (child_by_idx_for _ _ _ CH) in FT.
   unfold child_events. rewrite (child_by_idx_for _ _ _ CH).
   assert (NU : not_used c = opt_eqb str_eqb (ci_usage c) (Some (XmlOut.l "N"))) by reflexivity.
-  rewrite NU. set (comp := nth i (els s) []) in *.
+  rewrite NU in FT |- *. set (comp := nth i (els s) []) in *.
   destruct (opt_eqb str_eqb (ci_usage c) (Some (XmlOut.l "N"))) eqn:U.
   - change (w_ret true) with (@w_lift xstate bool (Ok true)) in H. rewrite w_bind_lift_ok in H.
     apply ret_inv in H as (-> & -> & _). cbn [orb]. split; reflexivity.
@@ -789,7 +808,7 @@ Proof.
     rewrite w_bind_lift_ok in H.
     destruct (comp_empty comp) eqn:CE.
     + apply ret_inv in H as (-> & -> & _). split; reflexivity.
-    + destruct (ci_kind c).
+    + cbn [orb] in FT. destruct (ci_kind c).
       * (* simple element *)
         assert (V : seg_get_value d s (fmt_02 (N.of_nat (i + 1))) = Ok (Some (format_comp (subele_term d) comp))).
         { unfold seg_get_value. rewrite SG. reflexivity. }
@@ -803,7 +822,7 @@ Proof.
         destruct (bind_runs_inv _ _ _ _ _ _ _ _ (push_runs (XmlOut.l "comp") (gi_id gi) st) H) as (o2 & H2 & C).
         rewrite w_bind_lift_ok in H2. rewrite w_bind_lift_ok in H2.
         apply bind_inv in H2 as (st1 & o3 & [] & o4 & H3 & H4 & ->).
-        apply write_subeles_ok in H3 as [-> C3].
+        apply Nat.leb_le in FT. apply (write_subeles_ok _ _ _ _ _ FT) in H3 as [-> C3].
         destruct (pop_runs (XmlOut.l "comp") (xw_stack st) (set_stack st (xw_stack st ++ [XmlOut.l "comp"])) eq_refl) as (o5 & E5 & C5).
         rewrite E5 in H4. injection H4 as <- <-. rewrite set_stack_set, set_stack_same. split; [reflexivity|].
         rewrite C, concat_app, C3, C5. cbn [set_stack xw_stack]. rewrite app_length. cbn [length]. rewrite Nat.add_1_r.
@@ -819,36 +838,123 @@ Proof.
   - destruct (IH xs c r H) as (H1 & H2 & H3). cbn [nth length]. repeat split; auto; lia.
 Qed.
 
+(* ---- fix f38f280: the loop stops at len(children).  When every index below len(children) found its node (exactly
+   one child with that seq), the children's seqs are exactly 1..len(children), so no index beyond has a node ---- *)
+Definition seq_in (n : nat) (c : child_info) : bool := (1 <=? ci_seq c)%Z && (ci_seq c <=? Z.of_nat n)%Z.
+
+Lemma filter_or_length {A} (p q : A -> bool) : forall xs, (forall x, p x && q x = false) ->
+  length (filter (fun x => p x || q x) xs) = length (filter p xs) + length (filter q xs).
+Proof.
+  induction xs as [|x xs IH]; intros D; [reflexivity|]. cbn [filter]. specialize (IH D). specialize (D x).
+  destruct (p x), (q x); cbn [orb andb length] in *; try discriminate; lia.
+Qed.
+
+Lemma filter_ext_b {A} (p q : A -> bool) xs : (forall x, p x = q x) -> filter p xs = filter q xs.
+Proof. intros E. induction xs as [|x xs IH]; [reflexivity|]. cbn [filter]. rewrite E, IH. reflexivity. Qed.
+
+Lemma seqs_counted cs : forall n,
+  (forall i, i < n -> length (filter (fun c => (ci_seq c =? Z.of_nat i + 1)%Z) cs) = 1) ->
+  length (filter (seq_in n) cs) = n.
+Proof.
+  induction n as [|n IH]; intros H.
+  - clear H. induction cs as [|c cs IHc]; [reflexivity|]. cbn [filter]. unfold seq_in at 1.
+    destruct (Z.leb_spec 1 (ci_seq c)), (Z.leb_spec (ci_seq c) (Z.of_nat 0)); cbn [andb]; try exact IHc. lia.
+  - rewrite (filter_ext_b (seq_in (S n)) (fun c => seq_in n c || (ci_seq c =? Z.of_nat n + 1)%Z)).
+    + rewrite filter_or_length.
+      * rewrite IH by (intros i Li; apply H; lia). rewrite (H n) by lia. lia.
+      * intros c. unfold seq_in. destruct (Z.leb_spec 1 (ci_seq c)), (Z.leb_spec (ci_seq c) (Z.of_nat n)),
+          (Z.eqb_spec (ci_seq c) (Z.of_nat n + 1)); cbn [andb]; try reflexivity; lia.
+    + intros c. unfold seq_in. destruct (Z.leb_spec 1 (ci_seq c)), (Z.leb_spec (ci_seq c) (Z.of_nat n)),
+        (Z.leb_spec (ci_seq c) (Z.of_nat (S n))), (Z.eqb_spec (ci_seq c) (Z.of_nat n + 1)); cbn [andb orb]; try reflexivity; lia.
+Qed.
+
+Lemma filter_length_le' {A} (p : A -> bool) xs : length (filter p xs) <= length xs.
+Proof. induction xs as [|x xs IH]; [cbn; lia|]. cbn [filter]. destruct (p x); cbn [length]; lia. Qed.
+
+Lemma filter_full {A} (p : A -> bool) : forall xs, length (filter p xs) = length xs -> forall x, In x xs -> p x = true.
+Proof.
+  induction xs as [|y xs IH]; intros E x I; [destruct I|]. cbn [filter] in E. destruct (p y) eqn:P.
+  - cbn [length] in E. destruct I as [<-|I]; [exact P | apply IH; [lia | exact I]].
+  - pose proof (filter_length_le' p xs). cbn [length] in E. lia.
+Qed.
+
+Lemma beyond_none gi :
+  (forall i, i < length (gi_children gi) -> exists c, seg_child_by_idx (gi_children gi) i = Ok (Some c)) ->
+  forall i, length (gi_children gi) <= i -> child_for gi i = None.
+Proof.
+  intros H i L. unfold child_for.
+  assert (CNT : length (filter (seq_in (length (gi_children gi))) (gi_children gi)) = length (gi_children gi)).
+  { apply seqs_counted. intros j Lj. destruct (H j Lj) as (c & E). unfold seg_child_by_idx in E.
+    destruct (Nat.leb_spec (length (gi_children gi)) j); [lia|].
+    destruct (filter _ _) as [|c1 [|c2 r]]; try discriminate. reflexivity. }
+  pose proof (filter_full _ _ CNT) as ALL.
+  assert (E : filter (fun c => (ci_seq c =? Z.of_nat i + 1)%Z) (gi_children gi) = []).
+  { generalize ALL. generalize (gi_children gi) at 1 3 as cs. induction cs as [|c cs IH]; intros A; [reflexivity|].
+    cbn [filter]. pose proof (A c (or_introl eq_refl)) as Q. unfold seq_in in Q. apply andb_true_iff in Q as [_ Q].
+    apply Z.leb_le in Q. destruct (Z.eqb_spec (ci_seq c) (Z.of_nat i + 1)); [lia|].
+    apply IH. intros x I. apply A. right. exact I. }
+  rewrite E. reflexivity.
+Qed.
+
+Lemma children_none gi d : (forall i, length (gi_children gi) <= i -> child_for gi i = None) ->
+  forall (suffix : list composite) k, length (gi_children gi) <= k ->
+  concat (map (fun ic : nat * composite => child_events gi d (fst ic) (snd ic)) (combine (seq k (length suffix)) suffix)) = [].
+Proof.
+  intros BN. induction suffix as [|c r IH]; intros k L; [reflexivity|].
+  cbn [length seq combine map concat fst snd]. unfold child_events at 1. rewrite (BN k L). cbn [app]. apply IH. lia.
+Qed.
+
+Lemma write_child_some gi d s i st st' out :
+  write_child gi d s i st = (st', out, Ok tt) -> exists c, seg_child_by_idx (gi_children gi) i = Ok (Some c).
+Proof.
+  intros H. unfold write_child in H. apply lift_inv in H as (child & CH & H).
+  destruct child as [c|]; [exists c; exact CH | discriminate H].
+Qed.
+
 Lemma children_ok gi d s : forall suffix k st st' out,
   skipn k (els s) = suffix ->
-  w_iter (write_child gi d s) (seq k (length suffix)) st = (st', out, Ok tt) ->
+  forallb (fun ic : nat * composite => comp_fits gi (fst ic) (snd ic)) (combine (seq k (length suffix)) suffix) = true ->
+  (forall i, i < k -> i < length (gi_children gi) -> exists c, seg_child_by_idx (gi_children gi) i = Ok (Some c)) ->
+  w_iter (write_child gi d s) (seq k (Nat.min (length suffix) (length (gi_children gi) - k))) st = (st', out, Ok tt) ->
   st' = st /\
   concat out = ser (length (xw_stack st))
     (concat (map (fun ic : nat * composite => child_events gi d (fst ic) (snd ic)) (combine (seq k (length suffix)) suffix))).
 Proof.
-  induction suffix as [|c r IH]; intros k st st' out E H.
+  induction suffix as [|c r IH]; intros k st st' out E FT PRE H.
   - cbn in H. injection H as <- <-. split; reflexivity.
   - destruct (@skipn_cons_inv composite [] _ _ _ _ E) as (N & E' & L).
-    cbn [length seq w_iter] in H. apply bind_inv in H as (st1 & o1 & [] & o2 & H1 & H2 & ->).
-    apply (write_child_ok _ _ _ _ _ _ _ L) in H1 as [-> C1].
-    destruct (IH _ _ _ _ E' H2) as [-> C2]. split; [reflexivity|].
-    rewrite concat_app, C1, C2. cbn [length seq combine map concat fst snd]. rewrite ser_app, dep_child, N. reflexivity.
+    destruct (le_lt_dec (length (gi_children gi)) k) as [B|B].
+    + replace (length (gi_children gi) - k) with 0 in H by lia. rewrite Nat.min_0_r in H.
+      cbn in H. injection H as <- <-.
+      rewrite (children_none gi d (beyond_none gi (fun i Li => PRE i ltac:(lia) Li)) (c :: r) k B). split; reflexivity.
+    + replace (length (gi_children gi) - k) with (S (length (gi_children gi) - S k)) in H by lia.
+      cbn [length] in H. rewrite <- Nat.succ_min_distr in H.
+      cbn [length seq combine forallb fst snd] in FT. apply andb_true_iff in FT as [FT1 FT2].
+      cbn [seq w_iter] in H. apply bind_inv in H as (st1 & o1 & [] & o2 & H1 & H2 & ->).
+      pose proof (write_child_some _ _ _ _ _ _ _ H1) as SM. rewrite <- N in FT1.
+      apply (write_child_ok _ _ _ _ _ _ _ L FT1) in H1 as [-> C1].
+      assert (PRE' : forall i, i < S k -> i < length (gi_children gi) -> exists c0, seg_child_by_idx (gi_children gi) i = Ok (Some c0)).
+      { intros i Li Lc. destruct (Nat.eq_dec i k) as [->|NE]; [exact SM | apply PRE; [lia | exact Lc]]. }
+      destruct (IH _ _ _ _ E' FT2 PRE' H2) as [-> C2]. split; [reflexivity|].
+      rewrite concat_app, C1, C2. cbn [length seq combine map concat fst snd]. rewrite ser_app, dep_child, N. reflexivity.
 Qed.
 
 (* ---- one segment ---- *)
 Lemma seg_step gi d s last cur pp st st' out :
   xw_stack st = X12S :: repeat LOOP (length last) -> x_last st = last ->
   gi_parent_path gi = Ok pp -> path_list pp = cur -> cur <> [] -> prefix_safe last cur = true ->
+  fits_node gi s = true ->
   simple_seg (TSeg gi) d s st = (st', out, Ok tt) ->
   (xw_stack st' = X12S :: repeat LOOP (length cur) /\ x_last st' = cur) /\
   concat out = ser (S (length last)) (loop_events (gi_first gi) last cur ++ seg_events gi d s).
 Proof.
-  intros ES EL PP PL N PS H. unfold simple_seg in H. rewrite PP, w_bind_lift_ok, w_bind_get, PL in H.
+  intros ES EL PP PL N PS FT H. unfold simple_seg in H. rewrite PP, w_bind_lift_ok, w_bind_get, PL in H.
   destruct (bind_runs_inv _ _ _ _ _ _ _ _ (loop_step (gi_first gi) last cur st ES EL N PS) H) as (o2 & H2 & C2).
   clear H. set (st1 := set_stack st (X12S :: repeat LOOP (length cur))) in *.
   destruct (bind_runs_inv _ _ _ _ _ _ _ _ (push_runs (XmlOut.l "seg") (gi_id gi) st1) H2) as (o3 & H3 & C3).
   clear H2. apply bind_inv in H3 as (st2 & o4 & [] & o5 & H4 & H5 & ->).
-  apply (children_ok gi d s (els s) 0 _ _ _ eq_refl) in H4 as [-> C4].
+  rewrite <- (Nat.sub_0_r (length (gi_children gi))) in H4.
+  apply (children_ok gi d s (els s) 0 _ _ _ eq_refl FT ltac:(intros i Li; lia)) in H4 as [-> C4].
   set (st2 := set_stack st1 (xw_stack st1 ++ [XmlOut.l "seg"])) in *.
   destruct (bind_runs_inv _ _ _ _ _ _ _ _ (pop_runs (XmlOut.l "seg") (xw_stack st1) st2 eq_refl) H5) as (o6 & H6 & C6).
   unfold w_mod in H6. injection H6 as <- <-. split; [split; reflexivity|].
@@ -880,18 +986,19 @@ Lemma body_ok xs : forall last st st' out,
          end && negb (match lc_path x with [] => true | _ => false end) && prefix_safe last (lc_path x) &&
          inputs_ok (lc_path x) r
      end) last xs = true ->
+  forallb (fun x => fits_node (lc_gi x) (lc_seg x)) xs = true ->
   w_iter (fun x => simple_seg (TSeg (lc_gi x)) (lc_d x) (lc_seg x)) xs st = (st', out, Ok tt) ->
   (xw_stack st' = X12S :: repeat LOOP (length (snd (body_events last xs))) /\ x_last st' = snd (body_events last xs)) /\
   concat out = ser (S (length last)) (fst (body_events last xs)).
 Proof.
-  induction xs as [|x xs IH]; intros last st st' out ES EL OK H.
+  induction xs as [|x xs IH]; intros last st st' out ES EL OK FT H.
   - cbn in H. injection H as <- <-. cbn [body_events fst snd]. auto.
-  - apply andb_true_iff in OK as [OK OK4]. apply andb_true_iff in OK as [OK OK3]. apply andb_true_iff in OK as [OK1 OK2].
+  - cbn [forallb] in FT. apply andb_true_iff in FT as [FT1 FT2]. apply andb_true_iff in OK as [OK OK4]. apply andb_true_iff in OK as [OK OK3]. apply andb_true_iff in OK as [OK1 OK2].
     destruct (gi_parent_path (lc_gi x)) as [pp|] eqn:PP; [|discriminate]. apply list_eqb_eq in OK1.
     assert (N : lc_path x <> []) by (destruct (lc_path x); [discriminate | discriminate]).
     cbn [w_iter] in H. apply bind_inv in H as (st1 & o1 & [] & o2 & H1 & H2 & ->).
-    destruct (seg_step _ _ _ _ _ _ _ _ _ ES EL PP OK1 N OK3 H1) as [[ES1 EL1] C1].
-    destruct (IH _ _ _ _ ES1 EL1 OK4 H2) as [[ES2 EL2] C2].
+    destruct (seg_step _ _ _ _ _ _ _ _ _ ES EL PP OK1 N OK3 FT1 H1) as [[ES1 EL1] C1].
+    destruct (IH _ _ _ _ ES1 EL1 OK4 FT2 H2) as [[ES2 EL2] C2].
     cbn [body_events]. destruct (body_events (lc_path x) xs) as [more fin]. cbn [fst snd] in *.
     split; [split; assumption|]. rewrite concat_app, C1, C2.
     rewrite (ser_app (_ ++ _)), dep_app, dep_loops, dep_seg. reflexivity.
@@ -926,15 +1033,16 @@ Lemma model_refines xs st chunks :
          end && negb (match lc_path x with [] => true | _ => false end) && prefix_safe last (lc_path x) &&
          inputs_ok (lc_path x) r
      end) [] xs = true ->
+  forallb (fun x => fits_node (lc_gi x) (lc_seg x)) xs = true ->
   (dow_ simple_init None;
    dow_ w_iter (fun x => simple_seg (TSeg (lc_gi x)) (lc_d x) (lc_seg x)) xs;
    simple_del) x_empty = (st, chunks, Ok tt) ->
   concat chunks = xml_decl ++ ser 0 (doc_events xs).
 Proof.
-  intros OK H.
+  intros OK FT H.
   destruct (bind_runs_inv _ _ _ _ _ _ _ _ init_runs H) as (o2 & H2 & C2). clear H.
   apply bind_inv in H2 as (st1 & o3 & [] & o4 & H3 & H4 & ->).
-  destruct (body_ok xs [] {| xw_stack := [X12S]; x_last := [] |} _ _ eq_refl eq_refl OK H3) as [[ES EL] C3].
+  destruct (body_ok xs [] {| xw_stack := [X12S]; x_last := [] |} _ _ eq_refl eq_refl OK FT H3) as [[ES EL] C3].
   unfold simple_del in H4. rewrite w_bind_get in H4. unfold xw_len in H4. rewrite ES in H4. cbn [length] in H4.
   rewrite repeat_length in H4. destruct (del_runs _ st1 ES) as (o5 & E5 & C5). rewrite E5 in H4. injection H4 as <- <-.
   rewrite C2, concat_app, C3, C5, <- app_assoc. f_equal. unfold doc_events.
